@@ -52,8 +52,101 @@ def cases(draw):
             "provider": draw(st.sampled_from(["plain", "fqn"]))}
 
 
+@st.composite
+def string_root_cases(draw):
+    """the root model comes from a string (no file name) and sees library files through a GlobalRepo provider"""
+    return {"kind": "string_root", "nlib": draw(st.integers(1, 3)),
+            "phase": draw(st.sampled_from(["unknown_ref", "obj_processor_textx", "obj_processor_valueerror", "model_processor"])),
+            "provider": draw(st.sampled_from(["plain_globalrepo", "fqn_globalrepo"])),
+            "uses": draw(st.lists(st.integers(0, 2), max_size=3)), "named": draw(st.booleans())}
+
+
 def strategy(tier):
-    return cases()
+    return st.one_of(cases(), cases(), cases(), cases(), string_root_cases())
+
+
+def eval_string_root(case):
+    from textx import metamodel_from_str
+    from textx.exceptions import TextXError, TextXSemanticError
+    from textx.scoping import providers as P
+
+    out = Outcome()
+    phase = case["phase"]
+    fqn = case["provider"] == "fqn_globalrepo"
+    tmp = os.path.realpath(tempfile.mkdtemp(prefix="vt-c18s-"))
+    arm = {"on": False}
+    refs = []
+
+    def obj_proc(o):
+        if arm["on"] and o.name == "dfault":
+            if phase == "obj_processor_textx":
+                raise TextXSemanticError("rejected by the harness' object processor")
+            if phase == "obj_processor_valueerror":
+                raise ValueError("rejected by the harness' object processor")
+
+    def model_proc(model, metamodel):
+        try:
+            refs.append(weakref.ref(model))
+        except TypeError:
+            pass
+        if arm["on"] and phase == "model_processor" and any(d.name == "dfault" for d in model.defs):
+            raise Boom("rejected by the harness' model processor")
+
+    try:
+        mm = metamodel_from_str(F.grammar(":FQN" if fqn else "", fqn), global_repository=True)
+        pattern = os.path.join(tmp, "lib*.m")
+        mm.register_scope_providers({"*.*": P.FQNGlobalRepo(pattern) if fqn else P.PlainNameGlobalRepo(pattern)})
+        mm.register_obj_processors({"Def": obj_proc})
+        mm.register_model_processor(model_proc)
+        for i in range(case["nlib"]):
+            with open(os.path.join(tmp, f"lib{i}.m"), "w") as f:
+                f.write(f"def l{i}\n")
+        uses = "".join(f"use u{k} -> l{j % case['nlib']}\n" for k, j in enumerate(case["uses"]))
+        good = "def own\n" + uses
+        bad = {"unknown_ref": good + "use ubad -> nowhere\n"}.get(phase, "def dfault\n" + good)
+        kw = {"file_name": os.path.join(tmp, "root.m")} if case["named"] else {}
+        ctx = f"case={case}"
+        out.cls("kind:string_root", "phase:" + phase, "provider:" + case["provider"], "named" if case["named"] else "anonymous")
+        out.nontrivial = True
+        out.sample = {"root": bad, "libs": case["nlib"], "phase": phase}
+
+        def held():
+            return set(mm._tx_model_repository.all_models.filename_to_model)
+
+        keep = mm.model_from_str("def first\n" + uses, **({"file_name": os.path.join(tmp, "first.m")} if case["named"] else {}))
+        before = held()
+        arm["on"] = True
+        try:
+            mm.model_from_str(bad, **kw)
+            return out.add("fault_not_reported/" + phase, ctx)
+        except (TextXError, Boom, ValueError) as e:
+            failed = f"{type(e).__name__}: {e}"
+        after = held()
+        if after - before:
+            out.add(f"repository_keeps_failed_models/{phase}/string_root", ctx + f": still holds "
+                    f"{sorted(os.path.basename(x) for x in after - before)} after {failed}")
+        if before - after:
+            out.add(f"repository_lost_earlier_models/{phase}", ctx + f": lost {sorted(os.path.basename(x) for x in before - after)}")
+        arm["on"] = False
+        gc.collect()
+        alive = sum(1 for r in refs if r() is not None and r() is not keep and
+                    not any(r() is m for m in mm._tx_model_repository.all_models.filename_to_model.values()))
+        if alive:
+            out.add(f"failed_models_alive/{phase}/string_root", ctx + f": {alive} models of the failed attempt are still alive")
+        # the next loads succeed: the repaired root and an unrelated string
+        try:
+            m2 = mm.model_from_str(good, **kw)
+            mm.model_from_str("def other\n")
+        except (TextXError, Boom, ValueError) as e:
+            return out.add(f"next_load_fails/{phase}/string_root", ctx + f": {type(e).__name__}: {e}")
+        libs = {os.path.basename(k): m for k, m in mm._tx_model_repository.all_models.filename_to_model.items()}
+        for k, j in enumerate(case["uses"]):
+            lm = libs.get(f"lib{j % case['nlib']}.m")
+            if lm is None or m2.uses[k].ref is not lm.defs[0]:
+                out.add("repaired_reload/identity", ctx + f": use {k}")
+        return out
+    finally:
+        shutil.rmtree(tmp, ignore_errors=True)
 
 
 def evaluate(case):
@@ -63,6 +156,8 @@ def evaluate(case):
     from textx.scoping import GlobalModelRepository, get_included_models
     from textx.scoping import providers as P
 
+    if case.get("kind") == "string_root":
+        return eval_string_root(case)
     out = Outcome()
     g = case["graph"]
     cl = F.closure(g, 0)
